@@ -256,4 +256,28 @@ mod verif_kani {
         std::mem::forget(h); std::mem::forget(bs);
     }
     //@family name=c04_hex fn=c04_hex props=C04 kind=bounded unwind=12 S=q:0,3;t:0,3,5 E=q:3,8,11;t:3,8,11,13,16,19 skip=S>E
+
+    // ================= C07: construction is the inverse of parsing =================
+    // three integer fields of concrete widths (so the 2nd and 3rd start at every alignment), values
+    // symbolic: pack, concatenate, then parse back in the same byte order.
+    fn c07_fields<const W1: usize, const W2: usize, const W3: usize, const O: usize>() {
+        let v1: i128 = kani::any();
+        let v2: i128 = kani::any();
+        let v3: i128 = kani::any();
+        let o = ord(O);
+        let all = Bitstr::from_int(v1, W1, o).append(&Bitstr::from_int(v2, W2, o)).append(&Bitstr::from_int(v3, W3, o));
+        // length is the sum of the field widths
+        assert!(all.len() == W1 + W2 + W3);
+        let mut rest = all;
+        let f1 = rest.read(W1).unwrap();
+        let f2 = rest.read(W2).unwrap();
+        let f3 = rest.read(W3).unwrap();
+        assert!(f1.to_uint(o) == low_bits(v1 as u128, W1));
+        assert!(f2.to_int(o) == sign_extend(v2 as u128, W2));
+        assert!(f3.to_uint(o) == low_bits(v3 as u128, W3));
+        // ... and nothing remains
+        assert!(rest.len() == 0);
+        std::mem::forget(f1); std::mem::forget(f2); std::mem::forget(f3); std::mem::forget(rest);
+    }
+    //@family name=c07_fields fn=c07_fields props=C07 kind=family unwind=40 W1=q:1,4,7,8;t:1-9 W2=q:3,13;t:3,8,13 W3=q:5;t:5,16 O=0,1
 }
